@@ -94,7 +94,7 @@ def reprefix(p, p2, q):
 
 
 # defects repaired in /repo (fix: commits aca8b22 0750142 f003354 85f4db6): their triggers are generated again
-REPAIRED = {"D11", "D12", "N4", "N11", "N10", "N1", "N3", "N6", "D2b", "D23", "N7", "D3", "D34", "N8", "N5"}
+REPAIRED = {"D11", "D12", "N4", "N11", "N10", "N1", "N3", "N6", "D2b", "D23", "N7", "D3", "D34", "N8", "N5", "D13"}
 
 
 class Mirror:
